@@ -12,6 +12,7 @@ CONSTANTS
  MaxEvents = 1
  MaxFaults = 3
  MaxTicks = 2
+ MaxBreaks = 0
  Export = FALSE
  RunToBlock = FALSE
  Mut = "none"
